@@ -263,10 +263,13 @@ http_res_parse_line(nng_http *conn, uint8_t *line)
 	*reason = '\0';
 	reason++;
 
-	status = atoi(codestr);
-	if ((status < 100) || (status > 999)) {
+	// status-code = 3DIGIT (RFC 7230 3.1.2)
+	if ((strlen(codestr) != 3) || (codestr[0] < '1') || (codestr[0] > '9') ||
+	    (codestr[1] < '0') || (codestr[1] > '9') || (codestr[2] < '0') ||
+	    (codestr[2] > '9')) {
 		return (NNG_EPROTO);
 	}
+	status = atoi(codestr);
 
 	nni_http_set_status(conn, (uint16_t) status, reason);
 
